@@ -166,6 +166,24 @@ theorem mem_of_lastIndexOf {f : String} {fs : List String} {i : Nat} (h : lastIn
   · rw [lastIndexOf_none hm] at h
     cases h
 
+theorem take_eraseIdx_of_le {α : Type} : ∀ (l : List α) (n i : Nat), n ≤ i → (l.eraseIdx i).take n = l.take n
+  | [], _, _, _ => by simp
+  | _ :: _, 0, _, _ => by simp
+  | x :: l, n + 1, 0, h => by omega
+  | x :: l, n + 1, i + 1, h => by
+    simp only [List.eraseIdx_cons_succ, List.take_succ_cons, take_eraseIdx_of_le l n i (by omega)]
+
+theorem mem_take_of_getElem? {α : Type} {l : List α} {i n : Nat} {x : α} (h : l[i]? = some x) (hi : i < n) :
+    x ∈ l.take n := by
+  have hlt : i < l.length := by
+    rcases Nat.lt_or_ge i l.length with h' | h'
+    · exact h'
+    · rw [List.getElem?_eq_none h'] at h; cases h
+  rw [List.mem_iff_getElem?]
+  refine ⟨i, ?_⟩
+  rw [List.getElem?_take]
+  simp [hi, h]
+
 /-! ### erasing at an index, in step in several lists -/
 
 theorem evalL_eraseIdx (ctx : Ctx) : ∀ (es : List PExpr) (i : Nat), evalL ctx (es.eraseIdx i) = (evalL ctx es).eraseIdx i
